@@ -3,7 +3,29 @@
 from .. import gen
 
 
+def _stored(desc):
+    secs = gen.D.valid_sectors(desc["sym"], desc["ix"], tuple(desc["charge"]))
+    drop = set(desc.get("drop", ()))
+    return [s for k, s in enumerate(secs) if k not in drop]
+
+
+def overlaps(a, b, axes_a, axes_b):
+    """Do a and b store at least one pair of sectors that agree on the contracted legs?"""
+    keys = {tuple(tuple(s[i]) for i in axes_a) for s in _stored(a)}
+    return any(tuple(tuple(s[j]) for j in axes_b) in keys for s in _stored(b))
+
+
 def partner_for(rng, a, ncon, nfree, kind, **kw):
+    """A contraction partner for `a`; redrawn (most of the time) until the contraction has something to sum."""
+    want = rng.random() < 0.85
+    for attempt in range(25):
+        b, axes_a, axes_b = _partner_for(rng, a, ncon, nfree, kind, **kw)
+        if not want or not _stored(a) or overlaps(a, b, axes_a, axes_b):
+            break
+    return b, axes_a, axes_b
+
+
+def _partner_for(rng, a, ncon, nfree, kind, **kw):
     ra = len(a["ix"])
     axes_a = rng.sample(range(ra), ncon)
     rb = ncon + nfree
